@@ -316,110 +316,132 @@ def run_sched(spec):
 
 
 def run_stress(spec):
-    """Free-running: 3 queueing threads x 6 messages, random write plans, yields at line boundaries."""
+    """Free-running: two connections of one node; 3 queueing threads x 6 messages on the first and 2 x 4 on the
+    second, random write plans on both (so that a soft error on one meets a successful write on the other in the
+    same pass of the I/O loop), yields at line boundaries."""
     from vf.simnet.world import World, REALM
     from vf.simnet import msgs as M
     from vf.checks.c14 import Yielder
-    from vf import refcodec as R
     rng = random.Random(h64("C15s", spec["seed"], spec["name"]))
     wit, hashes = [], set()
-    w = World(dict(peers=[{"name": PEER}], apps=[{"tag": "a4", "id": 4, "peers": [PEER]}],
+    PEER2 = "peer2.verif.example"
+    w = World(dict(peers=[{"name": PEER}, {"name": PEER2}], apps=[{"tag": "a4", "id": 4, "peers": [PEER, PEER2]}],
                    node={"idle_timeout": 10 ** 6}))
     h = w.h
     y = Yielder(spec["p"], h64("C15y", spec["seed"], spec["name"]))
     evals = 0
     delivered_faults = 0
     paced_runs = 0
+    soft_on_second = 0
     try:
         w.start()
-        sp = h.inbound(ip="10.1.0.1", port=50000)
-        h.settle()
-        sp.send(M.cer(PEER, REALM, auth=[4], hbh=1, e2e=1))
-        h.settle()
-        sp.drain()
-        conn = h.conn_of(sp)
+        sps, conns = [], []
+        for i, name in enumerate((PEER, PEER2)):
+            sp = h.inbound(ip=f"10.1.0.{i + 1}", port=50000 + i)
+            h.settle()
+            sp.send(M.cer(name, REALM, auth=[4], hbh=1, e2e=1))
+            h.settle()
+            sp.drain()
+            sps.append(sp)
+            conns.append(h.conn_of(sp))
+        shape = [(3, 6), (2, 4)]       # threads x messages per connection
         y.start()
         with h.cv:
             h.free_running = True
             h.cv.notify_all()
         for run in range(spec["runs"]):
-            plan = []
-            for _ in range(rng.randrange(0, 12)):
-                r = rng.random()
-                plan.append(("cap", rng.choice([1, 2, 5, 19, 20, 21, 100])) if r < 0.6 else
-                            ("err", rng.choice([errno.EAGAIN, errno.EINTR, errno.ENOBUFS])))
-            sp.node_sock.send_plan.clear()
-            sp.node_sock.send_plan.extend(plan)
-            tx0 = len(sp.node_sock.tx)
-            msgs = {}
-            bad_at = rng.choice([None, None, (rng.randrange(3), rng.randrange(6))])
-            for ti in range(3):
-                for k in range(6):
-                    bad = bad_at == (ti, k)
-                    m = make_msg(f"r{run};t{ti};m{k}", bad=bad)
-                    msgs[(ti, k)] = (m, None if bad else m.as_bytes())
-
+            plans, tx0, msgs = [], [], []
+            for ci, sp in enumerate(sps):
+                plan = []
+                for _ in range(rng.randrange(0, 12)):
+                    r = rng.random()
+                    plan.append(("cap", rng.choice([1, 2, 5, 19, 20, 21, 100])) if r < 0.6 else
+                                ("err", rng.choice([errno.EAGAIN, errno.EINTR, errno.ENOBUFS])))
+                if ci == 1 and run % 2:
+                    # the second connection starts with soft errors while the first one writes
+                    plan = [("err", rng.choice([errno.EAGAIN, errno.EINTR, errno.ENOBUFS]))
+                            for _ in range(rng.randrange(1, 4))] + plan
+                    soft_on_second += 1
+                sp.node_sock.send_plan.clear()
+                sp.node_sock.send_plan.extend(plan)
+                plans.append(plan)
+                tx0.append(len(sp.node_sock.tx))
+                nt, nm = shape[ci]
+                bad_at = rng.choice([None, None, (rng.randrange(nt), rng.randrange(nm))])
+                mm = {}
+                for ti in range(nt):
+                    for k in range(nm):
+                        bad = bad_at == (ti, k)
+                        m = make_msg(f"r{run};c{ci};t{ti};m{k}", bad=bad)
+                        mm[(ti, k)] = (m, None if bad else m.as_bytes())
+                msgs.append(mm)
             # every third run the producers are paced, so that the write thread catches up and goes back to waiting
             # between two calls (the hand-over "queue empty -> wait" is then exercised at every message, not only
-            # once per burst)
-            # (paced by sleeping, or by giving the processor away a few times, which keeps the producer runnable so
-            # that it is the one to run whenever the write thread is made to yield)
+            # once per burst): by sleeping, or by giving the processor away a few times, which keeps the producer
+            # runnable so that it is the one to run whenever the write thread is made to yield
             pace = [0, rng.choice([0.0001, 0.0003, 0.001]), -rng.choice([3, 10, 30])][run % 3]
-            gaps = {(ti, k): rng.random() * pace for ti in range(3) for k in range(6)}
             if pace:
                 paced_runs += 1
 
-            def body(ti):
-                for k in range(6):
+            def body(ci, ti, gaps):
+                for k in range(shape[ci][1]):
                     if pace > 0:
-                        time.sleep(gaps[(ti, k)])
+                        time.sleep(gaps[k])
                     elif pace < 0:
-                        for _ in range(int(-gaps[(ti, k)])):
+                        for _ in range(int(-gaps[k])):
                             time.sleep(0)
-                    conn.add_out_msg(msgs[(ti, k)][0])
+                    conns[ci].add_out_msg(msgs[ci][(ti, k)][0])
 
-            ths = [threading.Thread(target=body, args=(ti,)) for ti in range(3)]
+            ths = [threading.Thread(target=body, args=(ci, ti, [rng.random() * pace for _ in range(shape[ci][1])]))
+                   for ci in range(2) for ti in range(shape[ci][0])]
             for t in ths:
                 t.start()
             for t in ths:
                 t.join()
-            want = sum(len(v[1]) for v in msgs.values() if v[1] is not None)
+            want = [sum(len(v[1]) for v in msgs[ci].values() if v[1] is not None) for ci in range(2)]
             end = time.time() + 10
-            while time.time() < end and len(sp.node_sock.tx) - tx0 < want:
+            while time.time() < end and any(len(sps[ci].node_sock.tx) - tx0[ci] < want[ci] for ci in range(2)):
                 time.sleep(0.0005)
             time.sleep(0.002)
-            got = bytes(sp.node_sock.tx[tx0:])
             evals += 1
-            hashes.add(h64("stress", spec["name"], run, tuple(plan)))
-            delivered_faults += len(plan) - len(sp.node_sock.send_plan)
-            # parse: frames must be exactly the encodable messages, each once, per-thread order kept
-            pos, seen, bad_stream = 0, [], None
-            by_bytes = {v[1]: k for k, v in msgs.items() if v[1] is not None}
-            while pos < len(got):
-                ln = int.from_bytes(got[pos + 1:pos + 4], "big") if len(got) - pos >= 4 else 0
-                fr = got[pos:pos + ln]
-                if ln < 20 or fr not in by_bytes:
-                    bad_stream = pos
-                    break
-                seen.append(by_bytes[fr])
-                pos += ln
+            hashes.add(h64("stress", spec["name"], run, tuple(plans[0]), tuple(plans[1])))
             verdict = None
-            if bad_stream is not None:
-                verdict = ("stream_corrupted", {"at": bad_stream, "got_len": len(got), "want_len": want})
-            elif len(seen) != len(set(seen)):
-                verdict = ("message_duplicated", {"seen": seen})
-            elif len(seen) != len(by_bytes):
-                verdict = ("message_missing_or_stalled", {"seen": len(seen), "want": len(by_bytes)})
-            else:
-                for ti in range(3):
-                    ks = [k for (t, k) in seen if t == ti]
-                    if ks != sorted(ks):
-                        verdict = ("per_thread_order_violated", {"thread": ti, "order": ks})
+            for ci in range(2):
+                sp = sps[ci]
+                got = bytes(sp.node_sock.tx[tx0[ci]:])
+                delivered_faults += len(plans[ci]) - len(sp.node_sock.send_plan)
+                # parse: frames must be exactly the encodable messages, each once, per-thread order kept
+                pos, seen, bad_stream = 0, [], None
+                by_bytes = {v[1]: k for k, v in msgs[ci].items() if v[1] is not None}
+                while pos < len(got):
+                    ln = int.from_bytes(got[pos + 1:pos + 4], "big") if len(got) - pos >= 4 else 0
+                    fr = got[pos:pos + ln]
+                    if ln < 20 or fr not in by_bytes:
+                        bad_stream = pos
+                        break
+                    seen.append(by_bytes[fr])
+                    pos += ln
+                if bad_stream is not None:
+                    verdict = ("stream_corrupted", {"at": bad_stream, "got_len": len(got), "want_len": want[ci]})
+                elif len(seen) != len(set(seen)):
+                    verdict = ("message_duplicated", {"seen": seen})
+                elif len(seen) != len(by_bytes):
+                    verdict = ("message_missing_or_stalled", {"seen": len(seen), "want": len(by_bytes)})
+                else:
+                    for ti in range(shape[ci][0]):
+                        ks = [k for (t, k) in seen if t == ti]
+                        if ks != sorted(ks):
+                            verdict = ("per_thread_order_violated", {"thread": ti, "order": ks})
+                if verdict is not None:
+                    verdict[1]["connection"] = ci
+                    verdict[1]["plans"] = plans
+                    break
             if verdict is not None and len(wit) < 5:
-                wit.append({"key": f"outbound.{verdict[0]}.free_running", "detail": {"plan": plan, **verdict[1]}})
+                wit.append({"key": f"outbound.{verdict[0]}.free_running", "detail": verdict[1]})
                 break
-            sp.drain()
-            sp.frames.clear()
+            for sp in sps:
+                sp.drain()
+                sp.frames.clear()
         y.on = False
     finally:
         try:
@@ -428,8 +450,10 @@ def run_stress(spec):
             pass
         w.teardown()
     return {"evaluations": evals, "hashes": sorted(hashes), "witnesses": wit,
-            "samples": [{"stress_runs": evals, "messages_per_run": 18, "p_yield": spec["p"]}],
-            "coverage": {"stress_runs": evals, "stress_runs_with_paced_producers": paced_runs, "yields_injected": y.yields, "write_plan_entries_delivered": delivered_faults}}
+            "samples": [{"stress_runs": evals, "messages_per_run": 26, "connections": 2, "p_yield": spec["p"]}],
+            "coverage": {"stress_runs": evals, "stress_runs_with_paced_producers": paced_runs,
+                         "stress_runs_with_soft_errors_on_second_connection": soft_on_second,
+                         "yields_injected": y.yields, "write_plan_entries_delivered": delivered_faults}}
 
 
 def run_shard(spec):
